@@ -10,6 +10,7 @@
 -/
 import Xsel.Eval
 import Proofs.Lemmas.NumRound
+import Proofs.Lemmas.RndNearest
 
 namespace Xsel.C06
 open Xsel Xsel.NumL
@@ -344,5 +345,131 @@ theorem sum_count_type_error (sem : Sem) (c : Ctx) (v : Val) (h : ∀ l, v ≠ .
   cases v with
   | nodes l => exact absurd rfl (h l)
   | _ => exact ⟨rfl, rfl⟩
+
+end Xsel.C06
+
+/-! ### 7. `Num.rnd` IS round-to-nearest, ties-to-even (Proofs/Lemmas/RndNearest.lean)
+
+  Until here `rnd` — the function every arithmetic operator applies to its exact rational result —
+  was only validated against hardware.  The theorems below characterise it completely:
+  its range is the set of binary64 values, it fixes them, a finite result is at least as near to
+  the argument as EVERY double, a tie is broken towards the even significand, it is monotone, it
+  overflows to ±infinity exactly from `2^1024 - 2^970` on and underflows to a zero of the sign of
+  the argument exactly up to `2^-1075`. -/
+
+namespace Xsel.C06
+open Xsel Xsel.Num
+
+/-- the finite binary64 values: `0`, or `±m·2^e` with `0 < m < 2^53`, `-1074 ≤ e ≤ 971` -/
+abbrev IsDouble (q : Rat) : Prop := Rnd.IsDouble q
+
+theorem isDouble_iff (q : Rat) : IsDouble q ↔
+    (q = 0 ∨ ∃ (m : Nat) (e : Int) (s : Bool),
+      q = (if s then -((m : Rat) * pow2 e) else (m : Rat) * pow2 e) ∧
+      0 < m ∧ m < 2 ^ 53 ∧ -1074 ≤ e ∧ e ≤ 971) := Iff.rfl
+
+/-- **rnd_range** — the result of `rnd` is a finite double, `-0`, or an infinity; never NaN -/
+theorem rnd_range (q : Rat) :
+    (∃ q', rnd q = .fin q' ∧ IsDouble q') ∨ rnd q = .nzero ∨ rnd q = .pinf ∨ rnd q = .ninf :=
+  Rnd.rnd_range q
+
+/-- **rnd_fixes_doubles** — representable values are not changed -/
+theorem rnd_fixes_doubles (q : Rat) (h : IsDouble q) : rnd q = .fin q := Rnd.rnd_fixes_doubles q h
+
+/-- `rnd` is idempotent -/
+theorem rnd_idem (q q' : Rat) (h : rnd q = .fin q') : rnd q' = .fin q' := Rnd.rnd_idem q q' h
+
+/-- **roundHalfEvenNat_nearest** — the significand rounding: within ½, even at distance exactly ½ -/
+theorem roundHalfEvenNat_nearest (x : Rat) (hx : 0 ≤ x) :
+    ((roundHalfEvenNat x : Rat) - x).abs ≤ (1 : Rat) / 2 ∧
+    (((roundHalfEvenNat x : Rat) - x).abs = (1 : Rat) / 2 → roundHalfEvenNat x % 2 = 0) :=
+  Rnd.roundHalfEvenNat_nearest x hx
+
+/-- **ulpExp_spec** — the exponent of the unit in the last place: `2^52 ≤ a/2^e < 2^53` in the
+    normal range, clamped at the subnormal exponent `-1074` -/
+theorem ulpExp_spec (a : Rat) (ha : 0 < a) :
+    -1074 ≤ ulpExp a ∧
+    (-1074 < ulpExp a → pow2 52 ≤ a / pow2 (ulpExp a) ∧ a / pow2 (ulpExp a) < pow2 53) ∧
+    (ulpExp a = -1074 → a / pow2 (ulpExp a) < pow2 53) := Rnd.ulpExp_spec a ha
+
+/-- the exponent is determined by the binade -/
+theorem ulpExp_unique (a : Rat) (ha : 0 < a) (e : Int) (he : -1074 ≤ e)
+    (h1 : pow2 52 ≤ a / pow2 e) (h2 : a / pow2 e < pow2 53) : ulpExp a = e :=
+  Rnd.ulpExp_unique a ha e he h1 h2
+
+/-- **rnd_nearest** — GLOBAL form: a finite result `q'` (`-0` counted as `0`:
+    `Num.toRat?`) is at least as near to `q` as every double `d` -/
+theorem rnd_nearest (q q' : Rat) (h : (rnd q).toRat? = some q') (d : Rat) (hd : IsDouble d) :
+    (q' - q).abs ≤ (d - q).abs := Rnd.rnd_nearest q q' h d hd
+
+/-- **rnd_ties_even** — when another double is exactly as near, the result has the even
+    significand: `|q'| = M·2^e`, `e = ulpExp |q|`, `M` even -/
+theorem rnd_ties_even (q q' : Rat) (h : (rnd q).toRat? = some q') (d : Rat) (hd : IsDouble d)
+    (hne : d ≠ q') (heq : (d - q).abs = (q' - q).abs) :
+    ∃ M : Nat, M % 2 = 0 ∧ q'.abs = (M : Rat) * pow2 (ulpExp q.abs) :=
+  Rnd.rnd_ties_even q q' h d hd hne heq
+
+/-- … and also in the normal form of the result itself, `|q'| = M·2^(ulpExp |q'|)`, `M < 2^53` -/
+theorem rnd_ties_even' (q q' : Rat) (h : (rnd q).toRat? = some q') (d : Rat) (hd : IsDouble d)
+    (hne : d ≠ q') (heq : (d - q).abs = (q' - q).abs) :
+    ∃ M : Nat, M % 2 = 0 ∧ M < 2 ^ 53 ∧ q'.abs = (M : Rat) * pow2 (ulpExp q'.abs) :=
+  Rnd.rnd_ties_even' q q' h d hd hne heq
+
+/-- **rnd_monotone** — in the order of the IEEE comparison (`Num.le`: `-∞ < finite < +∞`,
+    `-0 = +0`) -/
+theorem rnd_monotone (p q : Rat) (h : p ≤ q) : Num.le (rnd p) (rnd q) = true :=
+  Rnd.rnd_monotone p q h
+
+/-- **rnd_overflow** — from the rounding boundary `2^1024 - 2^970` on: the infinity of the sign -/
+theorem rnd_overflow (q : Rat) (h : pow2 1024 - pow2 970 ≤ q.abs) :
+    rnd q = if q < 0 then .ninf else .pinf := Rnd.rnd_overflow q h
+
+/-- … and below it the result is finite -/
+theorem rnd_finite (q : Rat) (h : q.abs < pow2 1024 - pow2 970) :
+    ∃ q', (rnd q).toRat? = some q' ∧ IsDouble q' := Rnd.rnd_finite q h
+
+/-- **rnd_underflow_sign** — a non-zero argument that rounds to a zero keeps its sign -/
+theorem rnd_underflow_sign (q : Rat) (hz : (rnd q).isZero = true) :
+    (q < 0 → rnd q = .nzero) ∧ (0 < q → rnd q = .fin 0) := Rnd.rnd_underflow_sign q hz
+
+/-- … which happens exactly up to half the smallest subnormal (the tie goes to the even `0`) -/
+theorem rnd_underflow (q : Rat) (hq : q ≠ 0) : (rnd q).isZero = true ↔ q.abs ≤ pow2 (-1075) :=
+  Rnd.rnd_underflow q hq
+
+/-- rounding commutes with negation -/
+theorem rnd_neg (q : Rat) (hq : q ≠ 0) : rnd (-q) = Num.neg (rnd q) := Rnd.rnd_neg q hq
+
+/-- **add_is_rounded_sum** etc. — on finite operands the operators round the exact result once -/
+theorem add_is_rounded_sum (a b : Rat) : Num.add (.fin a) (.fin b) = rnd (a + b) := rfl
+
+theorem sub_is_rounded_difference (a b : Rat) (hb : b ≠ 0) :
+    Num.sub (.fin a) (.fin b) = rnd (a - b) := Rnd.sub_is_rounded_difference a b hb
+
+theorem mul_is_rounded_product (a b : Rat) (ha : a ≠ 0) (hb : b ≠ 0) :
+    Num.mul (.fin a) (.fin b) = rnd (a * b) := mul_finite a b ha hb
+
+theorem div_is_rounded_quotient (a b : Rat) (ha : a ≠ 0) (hb : b ≠ 0) :
+    Num.div (.fin a) (.fin b) = rnd (a / b) := div_finite a b ha hb
+
+/-- **arith_nearest** — the result of `+ - * div` on finite non-zero doubles is, when finite, a
+    double nearest to the exact rational result (no double `d` is nearer) -/
+theorem arith_nearest (a b : Rat) (ha : a ≠ 0) (hb : b ≠ 0) (d : Rat) (hd : IsDouble d) :
+    (∀ q', (Num.add (.fin a) (.fin b)).toRat? = some q' → (q' - (a + b)).abs ≤ (d - (a + b)).abs) ∧
+    (∀ q', (Num.sub (.fin a) (.fin b)).toRat? = some q' → (q' - (a - b)).abs ≤ (d - (a - b)).abs) ∧
+    (∀ q', (Num.mul (.fin a) (.fin b)).toRat? = some q' → (q' - a * b).abs ≤ (d - a * b).abs) ∧
+    (∀ q', (Num.div (.fin a) (.fin b)).toRat? = some q' → (q' - a / b).abs ≤ (d - a / b).abs) :=
+  Rnd.arith_nearest a b ha hb d hd
+
+/-- … and exact when the exact result is representable -/
+theorem arith_exact (a b : Rat) (ha : a ≠ 0) (hb : b ≠ 0) :
+    (IsDouble (a + b) → Num.add (.fin a) (.fin b) = .fin (a + b)) ∧
+    (IsDouble (a - b) → Num.sub (.fin a) (.fin b) = .fin (a - b)) ∧
+    (IsDouble (a * b) → Num.mul (.fin a) (.fin b) = .fin (a * b)) ∧
+    (IsDouble (a / b) → Num.div (.fin a) (.fin b) = .fin (a / b)) :=
+  Rnd.arith_exact a b ha hb
+
+/-- concrete ties: `2^53 + 1 ↦ 2^53` (down to even), `2^53 + 3 ↦ 2^53 + 4` (up to even) -/
+example : rnd 9007199254740993 = .fin 9007199254740992 ∧
+    rnd 9007199254740995 = .fin 9007199254740996 := by decide +kernel
 
 end Xsel.C06
